@@ -2,6 +2,13 @@
 From DV Require Import Base.Tactics Model.C08.
 From G Require Import C08_gen.
 
+(* build_mri_transforms for the self-supervised type: the supervised list with delete_acs_mask / delete_kspace off, the flag,
+   then the regenerated tail *)
+Definition ssl_cfg (x : cfg) : cfg :=
+  Build_cfg (c_crop x) (c_rescale x) (c_pad x) (c_rot x) (c_flip x) (c_reverse x) (c_zero_pad x) (c_mask x) (c_compress x) (c_pad_coils x)
+            (c_body x) (c_sens x) false false (c_scaling x) (c_percentile x) (c_recon_sense x).
+Definition gen_ssl (x : cfg) : list stage := gen_stages (ssl_cfg x) ++ [SFlag IsSSL] ++ gen_ssl_tail x.
+
 Definition deg_of (t : tm) : Z := match tdeg t with Some d => Z.of_nat d | None => (-2)%Z end.
 Definition show_env (e : env) : list (nat * Z) :=
   map (fun kt => (key_idx (fst kt), deg_of (snd kt))) (filter (fun kt => negb (key_eqb (fst kt) IsSSL)) e).
